@@ -298,17 +298,41 @@ theorem C05_interp_undefined_rejected (ext : Ext) (x : SVal) (b : B) (dt : DataT
   rw [hu] at hi
   cases hi
 
-/-- the same for a freshly built builder: everything but `covered` comes from `build_builder` — no hypothesis on the
-schema beside it.  (`covered` through `Props.C01.newDT_shape`; `Build.newDT_shapeW` establishes the same `Shape` from the
-weaker `coveredW`, which would also admit dictionaries whose value builder refuses strings — not restated.) -/
+/-- the same for a freshly built builder: everything but `coveredW` comes from `build_builder` — no hypothesis on the
+schema beside it.  `coveredW` (Lemmas/C01NewShape.lean) is the WEAK schema predicate: it also admits dictionaries whose
+value builder refuses strings (`Build.newDT_shapeW` establishes the `Shape` the push theorem needs from it); the former
+hypothesis `covered` implies it (`Build.coveredW_of_covered`; corollary `C05_new_interp_undefined_rejected_covered`). -/
 theorem C05_new_interp_undefined_rejected (ext : Ext) (x : SVal) (path : String) (dt : DataType) (n : Bool)
-    (md : Metadata) (b : B) (hc : covered dt = true) (hnew : newDT path dt n md = .ok b)
+    (md : Metadata) (b : B) (hc : Build.coveredW dt = true) (hnew : newDT path dt n md = .ok b)
     (hraw : structStreamsAlternate x = true) (hnar : noRaw x = true ∨ narrowDT dt = true)
     (e : Fail) (hu : interpDT ext dt n md x = .error e) : ∀ b', push ext b x ≠ .ok b' :=
   C05_interp_undefined_rejected ext x b dt n md hraw hnar
     (Build.WFH_of_WFB _ (Props.C01.newDT_fresh dt path n md b hnew).1)
     (Build.BuiltFor_NoDictKey b dt n (Props.C03.newB_builtFor path (.mk "" dt n md) b hnew))
-    (Props.C01.newDT_shape dt path n md b hc hnew) e hu
+    (Build.newDT_shapeW dt path n md b hc hnew) e hu
+
+/-- the statement as it stood before (`covered` instead of `coveredW`) -/
+theorem C05_new_interp_undefined_rejected_covered (ext : Ext) (x : SVal) (path : String) (dt : DataType) (n : Bool)
+    (md : Metadata) (b : B) (hc : covered dt = true) (hnew : newDT path dt n md = .ok b)
+    (hraw : structStreamsAlternate x = true) (hnar : noRaw x = true ∨ narrowDT dt = true)
+    (e : Fail) (hu : interpDT ext dt n md x = .error e) : ∀ b', push ext b x ≠ .ok b' :=
+  C05_new_interp_undefined_rejected ext x path dt n md b (Build.coveredW_of_covered dt hc) hnew hraw hnar e hu
+
+/-- non-vacuity of the weaker hypothesis: `Dictionary(Int32, Int64)` is `coveredW` and NOT `covered`, `build_builder`
+accepts it, the documented mapping gives a string no value there — and the theorem applies: the push is refused -/
+example : covered (.dictionary .int32 .int64) = false ∧ Build.coveredW (.dictionary .int32 .int64) = true ∧
+    ∃ b, newDT "$" (.dictionary .int32 .int64) true [] = .ok b ∧ ∀ b', push {} b (.str "a") ≠ .ok b' := by
+  refine ⟨by decide, by decide, ?_⟩
+  have hok : (newDT "$" (.dictionary .int32 .int64) true []).isOk = true := by decide +kernel
+  have herr : (interpDT {} (.dictionary .int32 .int64) true [] (.str "a")).isOk = false := by decide +kernel
+  cases hb : newDT "$" (.dictionary .int32 .int64) true [] with
+  | error e => rw [hb] at hok; cases hok
+  | ok b =>
+    refine ⟨b, rfl, ?_⟩
+    cases hi : interpDT {} (.dictionary .int32 .int64) true [] (.str "a") with
+    | ok lv => rw [hi] at herr; cases herr
+    | error e =>
+      exact C05_new_interp_undefined_rejected {} (.str "a") "$" _ true [] b (by decide) hb (by decide) (Or.inl (by decide)) e hi
 
 /-- **ok ⇒ exact (`to_marrow`).**  If `to_marrow` succeeds, EVERY input record has a documented value
 (`interpRow` is defined: every field of every record, at every depth, was representable in its column) and the
